@@ -37,6 +37,7 @@ def printStep (s : StepCode) : Toks :=
   let elems := s.elems.map printElem
   let joinExpr : Toks := match s.form with
     | .call j => j ++ [paren (commaSep elems)]
+    | .futJoin j _ => j ++ [paren (commaSep elems)]
     | .tuple => [paren (commaSep elems)]
     | .awaitCat => elems.flatten ++ awaitToks
   (s.tbs.flatMap fun (b, arg) => [kw "let", (Var.j b).tok, pu '=', Var.tb.tok, paren [usizeLit arg], pu ';'])
